@@ -353,6 +353,7 @@ example : postprocess ⟨true, true⟩ sampleLevel =
 example : invList id [] (postprocess ⟨true, true⟩ sampleLevel) ≠ invList id [] sampleLevel := by decide
 example : (invList id [] (postprocess ⟨true, true⟩ sampleLevel)).Perm (invList id [] sampleLevel) :=
   C18_inventory_perm_partial _ _ _ (by decide)
-example : postprocess ⟨true, false⟩ witnessMixed = [.module 9 [.foreign ⟨0, 0, false, [1, 2]⟩]] := by rfl
+example : postprocessWith [.attrs, .abi] [.mergeExternBlocks, .sortSemantically] ⟨true, false⟩ witnessMixed
+    = [.module 9 [.foreign ⟨0, 0, false, [1, 2]⟩]] := by rfl
 
 end BindgenModel.Post
